@@ -479,6 +479,9 @@ func Run(t *rapid.T, cfg Config) {
 	if cfg.Done != nil {
 		defer cfg.Done(r.g)
 	}
+	if cfg.Side == CR && rapid.IntRange(0, 3).Draw(t, "ownerfocus") == 0 {
+		r.g.OwnerChangeFocus = true
+	}
 	// heights below VoteStart do not touch either state
 	k.StartAt(prof.VoteStart - 1)
 	r.base = prof.VoteStart
